@@ -100,7 +100,9 @@ def gen_case(rng, tier, index):
             "policy_param": rng.randrange(0, 4),
             "counter": rng.random() < 0.7,
             "batch": rng.choice([0, 0, 2, 3, 32]),
-            "prefetch": rng.choice([1, 2, 5])}
+            "prefetch": rng.choice([1, 2, 5]),
+            "overlap": rng.random() < 0.25,
+            "pattern": rng.getrandbits(30)}
 
 
 # ------------------------------------------------------------------ prim
@@ -246,6 +248,45 @@ def run_iface(case):
                 h.update(repr(loop.trace).encode())
                 if len(plan) > 1:
                     probes["two_concurrent_async_consumers"] += 1
+            elif (iface in ("conc", "sync") and case.get("overlap") and
+                  st["fmt"] != "tfrec"):
+                # two passes of ONE handle alive at the same time, each with
+                # its own per-example transformation
+                s0 = plan[0]
+                s1 = splits[1] if len(splits) > 1 else s0
+                c0, c1 = eread.Counter(st["attrs"]), eread.Counter(st["attrs"])
+                tables.setdefault(s1, env.shard_table(s1))
+                optsd.setdefault(s1, resolve_opts(
+                    case, len(env.model.ids(s1)), len(tables[s1])))
+                res, err, sc = eread.run_interleaved(
+                    env, ds, [(iface, s0, optsd[s0], c0),
+                              (iface, s1, optsd[s1], c1)],
+                    case["sched_seed"], case.get("pattern", 3),
+                    policy=case["policy"])
+                probes["overlapping_passes_on_one_handle"] += 1
+                stats["scheduler_decisions"] += sc.steps
+                h.update(sc.digest().encode())
+                if err:
+                    out.update(ok=False, vclass="overlapping_passes_fail",
+                               detail=f"{iface}: {err}")
+                else:
+                    for which, (s_, c_, r_) in enumerate(
+                            ((s0, c0, res[0]), (s1, c1, res[1]))):
+                        seen_ = collections.Counter(i for i, _ in r_)
+                        want_ = collections.Counter(env.model.ids(s_))
+                        if seen_ != want_ or c_.calls != seen_:
+                            out.update(
+                                ok=False,
+                                vclass="overlapping_passes_interfere",
+                                detail=f"{iface} split {s_} (pass {which} of "
+                                f"two interleaved passes on one handle): "
+                                f"yielded {sorted(seen_.elements())[:10]} "
+                                f"expected {sorted(want_.elements())[:10]}; "
+                                f"its process_record saw "
+                                f"{sorted(c_.calls.elements())[:10]}")
+                            break
+                    results[s0] = res[0]
+                    counters[s0] = None
             elif iface == "conc":
                 sc = S.Sched(random.Random(case["sched_seed"]),
                              policy=case["policy"],
